@@ -1,0 +1,46 @@
+//go:build verif
+
+// Package verifhook holds the seams used by the deterministic-simulation
+// harness. With the "verif" build tag the functions forward to the
+// package-level function variables the harness installs.
+package verifhook
+
+// Enabled reports whether the simulation hooks are compiled in.
+const Enabled = true
+
+var (
+	YieldFn func(point string, args []string)
+	FaultFn func(point string, args []string) error
+	EventFn func(kind string, args []string)
+	OrderFn func(point string, names []string) []string
+)
+
+// Yield marks a point at which a simulator may park the calling goroutine.
+func Yield(point string, args ...string) {
+	if f := YieldFn; f != nil {
+		f(point, args)
+	}
+}
+
+// Fault lets a simulator inject an error at a named point.
+func Fault(point string, args ...string) error {
+	if f := FaultFn; f != nil {
+		return f(point, args)
+	}
+	return nil
+}
+
+// Event reports an observation to a simulator.
+func Event(kind string, args ...string) {
+	if f := EventFn; f != nil {
+		f(kind, args)
+	}
+}
+
+// Order lets a simulator decide an otherwise arbitrary iteration order.
+func Order(point string, names []string) []string {
+	if f := OrderFn; f != nil {
+		return f(point, names)
+	}
+	return nil
+}
